@@ -165,7 +165,7 @@ spec("C13", "Non-interference through shared inputs",
      not_decided="value-level effects of reads; helpers reached only through unresolved dynamic calls")
 
 spec("C14", "sync_properties changes exactly the addressed property",
-     [F.rule_file1_input, F.rule_file7, named(M.rule_modf, "rule_modf_sync_properties", workers=("sync_properties.sync_properties",)), M.rule_modf2, CLI.rule_cli1],
+     [F.rule_file1_input, F.rule_file7, O.rule_pairs_all, named(M.rule_modf, "rule_modf_sync_properties", workers=("sync_properties.sync_properties",)), M.rule_modf2, CLI.rule_cli1],
      "Necessary conditions: (FILE-1) no value derived from the input filename reaches the path of a write sink; (FILE-7) the single write of the output file comes after all "
      "pairs and every returning path after the transformer ran tests `.replaced` with a raising failing branch; (MOD-F) only the addressed node is field-mutated on the "
      "read->write path; (MOD-F2) the node taken from the input tree is copied before it is mutated/grafted; (CLI-1) CLI dests bind to the worker's signature.",
@@ -208,7 +208,7 @@ spec("C18", "Wrapping / line length transparent",
      not_decided="parse(wrapped) == parse(unwrapped) in general")
 
 spec("C19", "gen writes one definition per entry",
-     [C.rule_call_getattr, F.rule_file6, O.rule_allpair, CLI.rule_cli1],
+     [C.rule_call_getattr, F.rule_file6, O.rule_allpair, O.rule_gen_layout, CLI.rule_cli1],
      "Necessary conditions: (CALL) for each --type value the getattr(emit, ...) call binds to the selected emitter's signature; (FILE-6) the existing-output guard dominates "
      "the gen call with a no-return failing branch; (ALL-PAIR) __all__ is built from the list filled exactly once per mapping entry with the expression that names the "
      "emitted definition, after the definitions are joined; (CLI-1) gen's CLI dests bind to gen's signature.",
